@@ -92,19 +92,29 @@ func (sdc *signingDoneCheck) listen(
 	// consuming goroutine are closed when the `waitUntilAllDone` completes its
 	// work. Leaving a dangling receiver without the message processing loop
 	// causes warnings on the channel level.
-	sdc.receiveCtx, sdc.cancelReceiveCtx = context.WithCancel(ctx)
+	//
+	// The consuming goroutine uses its own reference to the context. The
+	// fields of the check are set again by the listen call of the next attempt
+	// and the goroutine of the previous attempt, which may be just about to
+	// quit, must not read them at the same time.
+	receiveCtx, cancelReceiveCtx := context.WithCancel(ctx)
+	sdc.receiveCtx, sdc.cancelReceiveCtx = receiveCtx, cancelReceiveCtx
 
 	messagesChan := make(chan net.Message, signingDoneReceiveBuffer)
-	sdc.broadcastChannel.Recv(sdc.receiveCtx, func(message net.Message) {
+	sdc.broadcastChannel.Recv(receiveCtx, func(message net.Message) {
 		messagesChan <- message
 	})
 
-	sdc.attemptMembers = make(map[group.MemberIndex]bool)
+	attemptMembers := make(map[group.MemberIndex]bool)
 	for _, memberIndex := range attemptMembersIndexes {
-		sdc.attemptMembers[memberIndex] = true
+		attemptMembers[memberIndex] = true
 	}
-	sdc.expectedSignersCount = len(sdc.attemptMembers)
+
+	sdc.doneSignersMutex.Lock()
+	sdc.attemptMembers = attemptMembers
+	sdc.expectedSignersCount = len(attemptMembers)
 	sdc.doneSigners = make(map[group.MemberIndex]*signingDoneMessage)
+	sdc.doneSignersMutex.Unlock()
 
 	go func() {
 		for {
@@ -129,7 +139,7 @@ func (sdc *signingDoneCheck) listen(
 				sdc.doneSigners[doneMessage.senderID] = doneMessage
 				sdc.doneSignersMutex.Unlock()
 
-			case <-sdc.receiveCtx.Done():
+			case <-receiveCtx.Done():
 				return
 			}
 		}
@@ -239,13 +249,14 @@ func (sdc *signingDoneCheck) isValidDoneMessage(
 ) bool {
 	sdc.doneSignersMutex.Lock()
 	_, signerDone := sdc.doneSigners[doneMessage.senderID]
+	isAttemptMember := sdc.attemptMembers[doneMessage.senderID]
 	sdc.doneSignersMutex.Unlock()
 	if signerDone {
 		// only one done message allowed
 		return false
 	}
 
-	if !sdc.attemptMembers[doneMessage.senderID] {
+	if !isAttemptMember {
 		// only members participating in the attempt can confirm it is done
 		return false
 	}
